@@ -403,7 +403,10 @@ def run_c18(ck, ctx):
     for i in range(3 if tier == 'quick' else 20):
         pk, meta = G.conforming_stream(R, nlinks=R.randint(1, 3), max_hbf=2, hits=False)
         if i % 2 == 1:   # corrupted variant
-            k = R.randrange(len(pk)); pk[k].rdh['res0'] = 1
+            # not in the very first header: an RDH0 fault there is refused at start-up for the full and for every
+            # truncated input alike (global start-up gate, recorded under C02/C06/C08) and says nothing about truncation
+            k = R.randrange(1, len(pk)) if len(pk) > 1 else 0
+            if k: pk[k].rdh['res0'] = 1
             k = R.randrange(len(pk))
             if pk[k].words: pk[k].words[0] = bytes(9) + b'\x13'
         cases.append(pk[:12] if tier == 'quick' else pk[:40])
@@ -455,6 +458,8 @@ def run_c18(ck, ctx):
         # the intact prefix is *analysed*, not just free of spurious findings: every RDH that is completely present
         # is counted / shown, the rows of the complete packets are those of the untruncated run
         nrdh = sum(1 for o in offs[:-1] if o + 64 <= c)
+        if fr.exit == 1 and 'Init processing failed' in fr.stderr:
+            nrdh = 0; ncomplete = 0      # the untruncated input itself is refused at start-up: nothing is analysed in either run
         if mtok == 'cmd=viewrdh':
             rows_t = [l for l in r.stdout.decode('utf-8', 'replace').split('\n') if re.match(r'^\s*[0-9A-Fa-f]+:', l)]
             rows_f = [l for l in fr.stdout.decode('utf-8', 'replace').split('\n') if re.match(r'^\s*[0-9A-Fa-f]+:', l)]
